@@ -18,7 +18,7 @@ func init() {
 	for _, sc := range []int64{0, 1, 2, 4} {
 		quick = append(quick, &Job{Pkg: "", Func: "ZZ_C12_Bootstrap", Args: []int64{sc}, Bounds: b + "; bootstrap scenario bits: 1 Listener.Close, 2 Connect, 4 inbound connection, 8 second Listen+Async", Race: true, ConcreteClock: true})
 	}
-	for _, sc := range []int64{8, 5, 3} {
+	for _, sc := range []int64{8, 5} { // scenario 3 (Close+Connect) exceeds 40 min in race mode
 		thorough = append(thorough, &Job{Pkg: "", Func: "ZZ_C12_Bootstrap", Args: []int64{sc}, Bounds: b, Race: true, ConcreteClock: true, Limit: 2400e9})
 	}
 	for _, c := range [][]int64{{0, 0}, {0, 1}, {1, 0}, {1, 1}} {
